@@ -44,6 +44,11 @@ theorem union_iter_eq_overlay (snap buf : List KV) (lo hi : Bytes) (rev : Bool)
 example : IsMap [([1], [5]), ([1, 0], [6]), ([255], [7])] ∧ IsMap [([], [1]), ([1], []), ([1, 0, 0], [2])] ∧
     NoEmpty [([1], [5]), ([1, 0], [6]), ([255], [7])] := by decide
 
+/-- `NoEmpty snap` is needed: the iterator hands out a snapshot record with an empty value as it is, while `Get`
+(and the view) treat the empty value as "not found" — a snapshot never holds one (TiKV has no empty values) -/
+example : storeIter [([1], [])] [] [] [] false = [([1], [])] ∧ viewDir [([1], [])] [] [] [] false = [] ∧
+    unionGet [([1], [])] [] [1] = none := by decide
+
 /-- `KVUnionStore.Get`: buffer first, snapshot on a miss, an empty value is "not found" -/
 theorem union_get_eq_overlay (snap buf : List KV) (k : Bytes) : unionGet snap buf k = viewGet snap buf k :=
   unionGet_eq_viewGet snap buf k
@@ -119,22 +124,42 @@ theorem release_keeps_writes (b : Buf) (ops : List BOp) (h : Bracketed ops) :
 example : Bracketed [.set [1] [2], .staging, .checkpoint, .del [1], .revert 0, .cleanup, .staging,
     .set [3] [4], .checkpoint, .release, .revert 0] := by decide
 
-/-- Savepoints: reverting to a checkpoint restores exactly the state it was taken in — content, the checkpoint
-itself (it can be used again) and every older mark — after any block that closes the staging levels it opened
-and does not revert to an OLDER checkpoint: sets, deletes, nested staging levels to any depth (released or
-cleaned up), further checkpoints, reverts to this or to newer checkpoints. -/
-theorem revert_restores_view (b : Buf) (ops : List BOp) (h : Bracketed ops)
-    (hr : RevertsAtLeast (cpCount b.marks) ops) :
-    b.run (.checkpoint :: ops ++ [.revert (cpCount b.marks)]) = b.checkpoint.1 := by
-  obtain ⟨cur', top', h1, h2⟩ :=
-    run_block ⟨false, b.cur⟩ b.marks ops 0 0 b.cur [] rfl h (Or.inr ⟨rfl, hr⟩)
-  have h1' : b.run (.checkpoint :: ops) = ⟨cur', top' ++ ⟨false, b.cur⟩ :: b.marks⟩ := by
+/-- Savepoints: reverting to a checkpoint restores exactly the content (hence every view) it was taken in, keeps
+the checkpoint itself (it can be used again) and leaves the older marks as they are, after ANY block of
+operations that keeps the checkpoint alive: sets, deletes, nested staging levels to any depth (released or
+cleaned up), further checkpoints, reverts to this or to newer checkpoints, even releases of `n` staging levels
+that are OLDER than the checkpoint (then exactly those `n` marks are missing afterwards).  Excluded are only the
+two things that cut the checkpoint out of the value log: a cleanup of an older level and a revert to an older
+checkpoint. -/
+theorem revert_restores_view (b : Buf) (ops : List BOp) (n : Nat)
+    (h : cpBlock 0 0 ops = some (0, n)) (hr : RevertsAtLeast (cpCount b.marks) ops) :
+    b.run (.checkpoint :: ops ++ [.revert (cpCount b.marks)]) =
+      ⟨b.cur, ⟨false, b.cur⟩ :: dropStages n b.marks⟩ := by
+  obtain ⟨cur', top', k, h1, h2, h3⟩ :=
+    run_block_cp ⟨false, b.cur⟩ rfl ops 0 0 0 n b.cur [] b.marks rfl h hr
+  have hk : k = n := by omega
+  subst hk
+  have h1' : b.run (.checkpoint :: ops) = ⟨cur', top' ++ ⟨false, b.cur⟩ :: dropStages k b.marks⟩ := by
     simpa [Buf.run, Buf.apply, Buf.checkpoint] using h1
+  have hc := cutAtCp_floor ⟨false, b.cur⟩ (dropStages k b.marks) rfl top' h2
+  rw [cpCount_dropStages] at hc
   rw [run_append, h1']
-  simp [Buf.run, Buf.apply, Buf.revert, Buf.checkpoint, cutAtCp_floor ⟨false, b.cur⟩ b.marks rfl top' h2]
+  simp [Buf.run, Buf.apply, Buf.revert, hc]
 
-example : Bracketed [.set [1] [2], .staging, .checkpoint, .set [1] [3], .revert 1, .release, .revert 0, .del [2]] ∧
+/-- in particular, when the block releases no older level, the whole state right after `Checkpoint()` is back -/
+theorem revert_restores_state (b : Buf) (ops : List BOp)
+    (h : cpBlock 0 0 ops = some (0, 0)) (hr : RevertsAtLeast (cpCount b.marks) ops) :
+    b.run (.checkpoint :: ops ++ [.revert (cpCount b.marks)]) = b.checkpoint.1 :=
+  revert_restores_view b ops 0 h hr
+
+example : cpBlock 0 0 [.set [1] [2], .staging, .checkpoint, .set [1] [3], .revert 1, .release, .revert 0, .del [2]]
+      = some (0, 0) ∧
     RevertsAtLeast 0 [.set [1] [2], .staging, .checkpoint, .set [1] [3], .revert 1, .release, .revert 0, .del [2]] := by
+  decide
+
+/-- a block that releases an older level: `staging; checkpoint; set; release; revert 0` -/
+example : cpBlock 0 0 [.set [1] [2], .release, .staging, .del [1], .cleanup] = some (0, 1) ∧
+    (Buf.run ⟨[], [⟨true, []⟩]⟩ [.checkpoint, .set [1] [2], .release, .revert 0]) = ⟨[], [⟨false, []⟩]⟩ := by
   decide
 
 /-- without the second hypothesis the statement is false, and rightly so: reverting to an older checkpoint
